@@ -3,11 +3,11 @@ Executable statement of C19 on (original triangle, what was read from a torn fil
 exactly the leading cells of the original, in order, unmodified.
 -/
 import Bermuda.Spec.C05
-namespace Bermuda.Spec
-open Bermuda.Codec
+namespace Bermuda.Spec.C19
+open Bermuda.Codec Bermuda.Spec.C05
 
 /-- `decoded` is a prefix of `original` (cell by cell, dicts compared as dicts) -/
 def prefixSafe (original decoded : RawTriangle) : Bool :=
   decide (decoded.length ≤ original.length) && cellsEqv (original.take decoded.length) decoded
 
-end Bermuda.Spec
+end Bermuda.Spec.C19
